@@ -396,6 +396,9 @@ class Run:
                 core.err_plan[core.cmd_count + f.get("cmd", 0)] = (f["when"], f["status"])
             elif kind == "dev_abort":
                 core.abort_plan[core.cmd_count + f.get("cmd", 0)] = f.get("after", 0)
+                if s.mb.max_packet_size is None:
+                    # the first command of a fresh McuBoot object may be the max-packet-size query: aim at the next one too
+                    core.abort_plan[core.cmd_count + f.get("cmd", 0) + 1] = f.get("after", 0)
             elif kind in ("nak", "ack_abort") and s.transport == "uart":
                 eng.ack_plan[eng.acks_sent + f.get("ack", 0)] = "nak" if kind == "nak" else "abort"
             elif kind == "frame_abort" and s.transport == "uart":
